@@ -41,7 +41,7 @@ def kinds_for(cfg) -> List[str]:
     if cfg.get("eos"):
         ks.append("X")
     if cfg.get("rshapes"):
-        ks = list(RSHAPES) + ["O", "N", "Q"]
+        ks = list(RSHAPES) + ["O", "N", "Q", "E0", "Ed"]
     return ks
 
 
@@ -56,6 +56,10 @@ def build(kind: str, rid: Any, token: Any, seq: int) -> Any:
         return {**j, "id": rid, "result": {}}
     if kind == "E":
         return {**j, "id": rid, "error": {"code": -32000, "message": f"boom{seq}"}}
+    if kind == "E0":  # an error answer whose error object is empty: still an error answer, never a result
+        return {**j, "id": rid, "error": {}}
+    if kind == "Ed":  # an error answer with falsy members
+        return {**j, "id": rid, "error": {"code": 0, "message": ""}}
     if kind == "O":
         return {**j, "id": OTHER_ID, "result": {"v": "O"}}
     if kind == "Oe":
@@ -355,8 +359,8 @@ def run_one(ctl: explorer.Ctl, cfg: Dict[str, Any]) -> Dict[str, Any]:
                 else:
                     bad("wrong-time", f"result returned at {elapsed}, response arrived at {exp_t}")
         elif okind == "error":
-            ok = (oval["code"] == exp_payload["code"] and exp_payload["message"] in oval["str"]
-                  and abs(elapsed - exp_t) < 1e-9)
+            ok = ((oval["code"] == exp_payload["code"] and exp_payload["message"] in oval["str"]) if exp_payload else True) \
+                and abs(elapsed - exp_t) < 1e-9   # an empty error object names no code: any classified error will do
             if not ok:
                 bad("wrong-error", f"raised {oval}, expected {exp_payload} at {exp_t} (elapsed {elapsed})")
         else:
